@@ -154,10 +154,20 @@ func (g *gen) intLit(maxBits int) *exprT {
 	case 4, 5:
 		v = big.NewInt(int64(g.r.Intn(300)))
 	case 6:
-		// boundary of some width
-		b := []uint{7, 8, 15, 16, 31, 32, 63, 64}[g.r.Intn(8)]
+		// boundary of some width; with the 512-bit limit of the toolchain among them (2^512 - 1 is the largest
+		// literal it accepts; the interpreter has no limit on literals, F03-21)
+		b := []uint{7, 8, 15, 16, 31, 32, 63, 64, 7, 8, 15, 16, 31, 32, 63, 64, 511, 512}[g.r.Intn(18)]
+		if b > 64 && maxBits < 200 {
+			b = 64
+		}
 		v = new(big.Int).Lsh(big.NewInt(1), b)
 		v.Add(v, big.NewInt(int64(g.r.Intn(3)-1)))
+		if b >= 511 {
+			if g.r.Intn(3) == 0 {
+				v.Lsh(v, uint(g.r.Intn(100))) // well beyond the limit
+			}
+			return lit("int", v.String())
+		}
 	default:
 		bits := 1 + g.r.Intn(maxBits)
 		v = new(big.Int).Rand(g.r, new(big.Int).Lsh(big.NewInt(1), uint(bits)))
@@ -317,6 +327,11 @@ func (g *gen) num(cls string, d int) *exprT {
 			if r.Intn(2) == 0 {
 				a, b = b, a
 			}
+			if r.Intn(12) == 0 {
+				// a constant zero divisor of the type: converted (`T(0)`), folded (`T(3) - T(3)`) or untyped (F03-4)
+				z := []*exprT{conv(cls, lit("int", "0")), par(bin("sub", conv(cls, lit("int", "3")), conv(cls, lit("int", "3")))), lit("int", "0")}[r.Intn(3)]
+				return bin([]string{"quo", "rem"}[r.Intn(2)], a, z)
+			}
 			return bin([]string{"rem", "and", "or", "xor", "andNot"}[r.Intn(5)], a, b)
 		case x < 62:
 			return g.shift(cls, d)
@@ -358,9 +373,25 @@ func (g *gen) shift(cls string, d int) *exprT {
 	case x < 7:
 		cnt = lit("int", fmt.Sprint(r.Intn(210)))
 	case x < 8:
-		cnt = lit("int", fmt.Sprint(200+r.Intn(1000)))
+		switch r.Intn(3) {
+		case 0:
+			// the limits of the toolchain: results of more than 512 bits, counts above 1074 (F03-9)
+			cnt = lit("int", fmt.Sprint([]int{500, 509, 510, 511, 512, 513, 1023, 1073, 1074, 1075, 1076, 2000}[r.Intn(12)]))
+		default:
+			cnt = lit("int", fmt.Sprint(200+r.Intn(1000)))
+		}
 	case x < 9:
-		cnt = conv([]string{"uint", "uint8", "int", "uint64"}[r.Intn(4)], lit("int", fmt.Sprint(r.Intn(66))))
+		switch r.Intn(4) {
+		case 0:
+			// a typed floating-point count with an integral (or not) value (F03-13)
+			cnt = conv(floatKinds[r.Intn(2)], []*exprT{lit("int", fmt.Sprint(r.Intn(66))), lit("float", fmt.Sprintf("%d.0", r.Intn(40))),
+				lit("float", "2.5"), un("neg", lit("int", "1"))}[r.Intn(4)])
+		case 1:
+			// a typed count of signed type, possibly negative
+			cnt = conv([]string{"int", "int8", "int64"}[r.Intn(3)], un("neg", lit("int", fmt.Sprint(r.Intn(5)))))
+		default:
+			cnt = conv([]string{"uint", "uint8", "int", "uint64"}[r.Intn(4)], lit("int", fmt.Sprint(r.Intn(66))))
+		}
 	case x < 10:
 		cnt = lit("float", fmt.Sprintf("%d.0", r.Intn(40)))
 	case x < 11:
@@ -384,6 +415,11 @@ func (g *gen) str(d int) *exprT {
 	case x < 8:
 		return conv("string", g.str(d-1))
 	case x < 9:
+		if r.Intn(3) == 0 {
+			// string(<integer constant expression>): in the later walks of a constant declaration the operator node
+			// still has the type string that the conversion left on it (F03-14)
+			return conv("string", bin([]string{"add", "sub", "or"}[r.Intn(3)], g.runeLit(), lit("int", fmt.Sprint(r.Intn(20)))))
+		}
 		return conv("string", g.runeLit())
 	}
 	return g.str(d - 1)
@@ -413,6 +449,10 @@ func (g *gen) boolean(d int) *exprT {
 	case x < 18:
 		return un("not", g.boolean(d-1))
 	case x < 19:
+		if r.Intn(6) == 0 {
+			// an ill-typed shift of a boolean constant: a compile error for Go (F03-19)
+			return bin([]string{"shl", "shr"}[r.Intn(2)], g.boolean(0), lit("int", fmt.Sprint(r.Intn(4))))
+		}
 		return par(g.boolean(d - 1))
 	}
 	return conv("bool", g.boolean(d-1))
